@@ -7,4 +7,5 @@ let table : (string * (Model.n list -> Model.n list)) list = [
   ("raftlog", Model.run_raftlog);
   ("node", Model.run_node);
   ("pelection", Model.run_pelection);
+  ("plog", Model.run_plog);
 ]
